@@ -25,6 +25,7 @@ Script (JSON-able dict):
    "cfg": {"graceful": ms, "startup_to": ms, "shutdown_to": ms, "ka": ms,
            "max_requests": n | -1, "jitter": n},
    "prelisten": bool          # asyncio only: listen() before worker_serve (trio: always)
+   "seed": n                  # mixed with VERIF_SEED into random.seed() (jitter draw)
    "life": {"startup": complete | failed | failed-keeps-running | raise | raise-after-recv |
                        return | return-after-recv | return-after-complete | hang | unknown,
             "shutdown": complete | failed | raise | hang | return,
@@ -457,6 +458,10 @@ class WorkerRun:
     def make_listener(self, cls=socket.socket) -> socket.socket:
         sock = cls(socket.AF_INET, socket.SOCK_STREAM)
         sock.setsockopt(socket.SOL_SOCKET, socket.SO_REUSEADDR, 1)
+        # inherited by accepted sockets: without it Nagle + delayed ACK make the second small write
+        # of a response arrive ~40 ms of REAL time later (asyncio sets TCP_NODELAY itself only when
+        # the socket object was created with proto=IPPROTO_TCP)
+        sock.setsockopt(socket.IPPROTO_TCP, socket.TCP_NODELAY, 1)
         sock.bind(("127.0.0.1", 0))
         sock.setblocking(False)
         if self.prelisten:
@@ -626,8 +631,9 @@ class WorkerRun:
                 continue
             if s == "connect":
                 self.c_connect(int(st["c"]))
-                yield None
+                yield ("settle", 0)
                 self.c_connect_report(int(st["c"]))
+                yield None
                 continue
             if s == "send":
                 self.c_send(st)
@@ -636,7 +642,7 @@ class WorkerRun:
             elif s == "close":
                 self.c_close(int(st["c"]))
             elif s == "trigger":
-                if not self.triggered:
+                if not self.triggered and not self.serve_finished:
                     self.triggered = True
                     self.on_trigger("callable")
                     self.fire_trigger()
@@ -778,6 +784,9 @@ class AioWorkerRun(WorkerRun):
         for item in gen:
             if item is not None:
                 kind, val = item
+                if kind == "settle":
+                    self.settle_and_poll()
+                    continue
                 self.advance(val if kind == "to" else self.now() + val)
             self.settle_and_poll()
             self.log("quiescent", now=self.now(), open_conns=self.open_conns())
@@ -793,7 +802,7 @@ class AioWorkerRun(WorkerRun):
         ObsSocket.hook = self.on_accept
         try:
             arun.WorkerContext = obs_context_class(WorkerContext, self)
-            random.seed(self.seed)
+            random.seed(self.seed * 1000003 + int(self.script.get("seed", 0)))
             config = self.make_config()
             sock = self.make_listener(ObsSocket)
             self.trigger_event = asyncio.Event()
@@ -939,6 +948,9 @@ class TrioWorkerRun(WorkerRun):
         for item in gen:
             if item is not None:
                 kind, val = item
+                if kind == "settle":
+                    await self.settle_and_poll()
+                    continue
                 await self.advance(val if kind == "to" else self.now() + val)
             await self.settle_and_poll()
             self.log("quiescent", now=self.now(), open_conns=self.open_conns())
@@ -987,7 +999,7 @@ class TrioWorkerRun(WorkerRun):
         try:
             trun.WorkerContext = obs_context_class(WorkerContext, self)
             trio.SocketListener.accept = accept  # type: ignore
-            random.seed(self.seed)
+            random.seed(self.seed * 1000003 + int(self.script.get("seed", 0)))
             try:
                 trio._core._run._r.seed(self.seed)
             except AttributeError:
